@@ -13,7 +13,7 @@ try:
     if old not in s:
         print('PATTERN NOT FOUND'); sys.exit(2)
     open(p, 'w').write(s.replace(old, new, 1))
-    env = dict(os.environ, VERIF_REPO=d)
+    env = dict(os.environ, VERIF_REPO=d, VERIF_EVIDENCE_DIR=os.path.join(d, 'evidence'))
     r = subprocess.run(['python3-vt', '/verif/check.py'] + rest, env=env, cwd='/verif')
     print('exit', r.returncode)
 finally:
